@@ -15,6 +15,7 @@ func init() {
 	verifHarnesses["HarnessC05Boundary"] = HarnessC05Boundary
 	verifHarnesses["HarnessC04Cache"] = HarnessC04Cache
 	verifHarnesses["HarnessC04Queries"] = HarnessC04Queries
+	verifHarnesses["HarnessC01Parallel"] = HarnessC01Parallel
 }
 
 func verifCount(idx *Index, e Expression) uint64 {
@@ -234,6 +235,54 @@ func HarnessC04Queries() {
 	verifReach("end")
 }
 
+// HarnessC01Parallel: two independent indexes (separate files, separate objects), each queried
+// by its own goroutine at the same time, on demand or preloaded: no data race between them and
+// each count is the cardinality of the denotation on its own data.
+func HarnessC01Parallel() {
+	d1 := verifNewDataN("c01p1.updog", []string{"a", "b"}, [][]string{{"a0", "a1"}, {"b0"}}, 64)
+	d1.build()
+	d2 := &verifData{path: verifTempPath("c01p2.updog"), n: 6, cols: []string{"a", "b"},
+		vals: [][]string{{"a0", "a1"}, {"b0"}}, sets: [][]uint64{{0x05, 0x32}, {0x0f}}}
+	d2.build()
+	idx1 := d1.open(verifBool("preload1"), nil)
+	idx2 := d2.open(verifBool("preload2"), nil)
+	eq := func(c, v string) Expression { return &ExprEqual{Column: c, Value: v} }
+	a0, _ := d1.set("a", "a0")
+	b0, _ := d1.set("b", "b0")
+	var wg sync.WaitGroup
+	var c1, c2 uint64
+	var e1, e2 error
+	verifPreemptions(verifTier())
+	verifSchedule(true)
+	verifLockset(true)
+	wg.Add(2)
+	go func() {
+		defer wg.Done()
+		r, err := idx1.Execute(&Query{Expr: &ExprAnd{Exprs: []Expression{eq("a", "a0"), eq("b", "b0")}}})
+		e1 = err
+		if err == nil {
+			c1 = r.Count
+		}
+	}()
+	go func() {
+		defer wg.Done()
+		r, err := idx2.Execute(&Query{Expr: &ExprOr{Exprs: []Expression{eq("a", "a1"), eq("b", "b0")}}})
+		e2 = err
+		if err == nil {
+			c2 = r.Count
+		}
+	}()
+	wg.Wait()
+	verifLockset(false)
+	verifSchedule(false)
+	verifRaceFree("C01: two independent indexes queried by two goroutines share state")
+	verifAssert(e1 == nil && c1 == verifCard(a0&b0), "C01: a query on one index returned a wrong count while another, independent index was queried")
+	verifAssert(e2 == nil && c2 == 6, "C01: a query on one index returned a wrong count while another, independent index was queried")
+	idx1.Close()
+	idx2.Close()
+	verifReach("end")
+}
+
 // verifBigWriter opens the two databases of a big writer.
 func verifBigWriter(out, tmp string) (*BigIndexWriter, func()) {
 	db, err := bbolt.Open(out, 0644, nil)
@@ -305,7 +354,13 @@ func HarnessC05Boundary() {
 func HarnessC18Boundary() {
 	out := verifTempPath("c18b.updog")
 	bw, closeDBs := verifBigWriter(out, verifTempPath("c18b.tmp"))
-	const n1, n2 = 1001, 2
+	// the engine explores the second goroutine's two rows at every position relative to the
+	// first one's commit; natively both goroutines have to be busy at the same time for a race
+	// to show, so the second one adds as many rows as the first
+	n1, n2 := 1001, 2
+	if !verifSymbolic() {
+		n2 = 1001
+	}
 	ids := make([]uint32, n1+n2)
 	var wg sync.WaitGroup
 	verifPreemptions(0)
